@@ -463,7 +463,7 @@ type server struct {
 func newServer(c Case) (*server, func()) {
 	dir, rm := vcase.ScratchDir("c20-")
 	s := &server{dir: dir}
-	d, err := db.OpenSQL("sqlite3", filepath.Join(dir, "c20.sqlite"))
+	d, err := db.OpenSQL("sqlite3", "file:"+filepath.Join(dir, "c20.sqlite")+"?_sync=0")
 	if err != nil {
 		rm()
 		panic(fmt.Sprintf("cannot open database: %v", err))
@@ -599,7 +599,10 @@ type checker struct {
 	model []okUpload
 	ids   []string // every upload ID observed, in creation order
 	stop  bool     // a known finding was matched; the rest of the scenario is not evaluated
+	// complete earlier files of failed uploads that the property lets stay in the store
+	tolerated map[string]bool
 	deadInfo
+	checkingFailure bool // the left-over files of the failed upload are examined by the caller
 }
 
 var idRE = regexp.MustCompile(`^(\d{8})\.([1-9]\d*)$`)
@@ -965,6 +968,13 @@ func (k *checker) verifyState(when string, deadIDs []string, deadTags []string) 
 				return
 			}
 			k.checkStored(name, got, u.id, f.id, f.name, f.content, &ut)
+			delete(files, name)
+		}
+	}
+	for _, name := range keys(files) {
+		if !k.tolerated[name] && !k.checkingFailure {
+			k.v.Failf("%s: the store holds %s (%q), which belongs to no successful upload", when, name, files[name])
+			return
 		}
 	}
 }
@@ -1089,7 +1099,7 @@ func Check(c Case) (v vcase.Verdict) {
 	}
 	s, closeAll := newServer(c)
 	defer closeAll()
-	k := &checker{c: c, s: s, v: &v}
+	k := &checker{c: c, s: s, v: &v, tolerated: map[string]bool{}}
 	v.Label("kind=" + c.Fault.Kind)
 	v.Label("store=" + c.Store)
 	v.Label(fmt.Sprintf("history=%d", len(c.History)))
